@@ -10,15 +10,42 @@ open TaRs TaRs.Rs
 
 variable {F : Type} [Scalar F]
 
+/-- Normal form of one `next` on a well-formed state.  This is the ONLY fact about `next` proved
+    by executing the generated body; it does so with `rs_exec`, which does not depend on how the
+    wrap-around and warm-up tests are spelled.  Everything else is derived from it. -/
+theorem next_eq (s : WeightedMovingAverage F) (x v : F) (h : WF s) (hv : s.deque[s.index]? = some v) :
+    s.next x = some (
+      { period := s.period,
+        index := if s.index + 1 < s.period then s.index + 1 else 0,
+        count := if s.count < s.period then s.count + 1 else s.count,
+        weight := if s.count < s.period then Scalar.ofNat (s.count + 1) else s.weight,
+        sum := if s.count < s.period then Scalar.add s.sum (Scalar.mul x (Scalar.ofNat (s.count + 1)))
+               else Scalar.add (Scalar.sub s.sum s.sum_flat) (Scalar.mul x s.weight),
+        sum_flat := Scalar.add (Scalar.sub s.sum_flat v) x,
+        deque := s.deque.setIfInBounds s.index x },
+      Scalar.div
+        (if s.count < s.period then Scalar.add s.sum (Scalar.mul x (Scalar.ofNat (s.count + 1)))
+         else Scalar.add (Scalar.sub s.sum s.sum_flat) (Scalar.mul x s.weight))
+        (Scalar.div
+          (Scalar.mul (if s.count < s.period then Scalar.ofNat (s.count + 1) else s.weight)
+            (Scalar.add (if s.count < s.period then Scalar.ofNat (s.count + 1) else s.weight) (Scalar.lit 1 0)))
+          (Scalar.lit 2 0))) := by
+  obtain ⟨hp, hs, hsz, hi, hc⟩ := h
+  have hm : isizeMax < usizeMax := by decide
+  have hix : s.index < s.deque.size := by omega
+  rw [Array.getElem?_eq_getElem hix] at hv
+  have hv := Option.some.inj hv
+  unfold next
+  rs_exec
+  all_goals (first | omega | (subst hv; rfl))
+
 /-- `next` never panics on a well-formed state, keeps it well-formed and keeps the period -/
 theorem next_total (s : WeightedMovingAverage F) (x : F) (h : WF s) :
     ∃ r, s.next x = some r ∧ WF r.1 ∧ r.1.period = s.period := by
+  have hix : s.index < s.deque.size := by have := h.size; have := h.idx; omega
+  refine ⟨_, next_eq s x _ h (Array.getElem?_eq_getElem hix), ?_, rfl⟩
   obtain ⟨hp, hs, hsz, hi, hc⟩ := h
-  have hm : isizeMax < usizeMax := by decide
-  unfold next
-  by_cases c1 : s.index + 1 < s.period <;> by_cases c2 : s.count < s.period <;>
-    simp (disch := omega) [index_eq, setIndex_eq, uadd_eq, c1, c2] <;>
-    constructor <;> simp_all <;> omega
+  constructor <;> simp only [Array.size_setIfInBounds] <;> (try split) <;> omega
 
 theorem nextBar_eq (s : WeightedMovingAverage F) (b : Bar F) : s.nextBar b = s.next b.close := by
   unfold nextBar
